@@ -43,6 +43,9 @@ def is_canonical(event):
         and isinstance(event.tags, (list, tuple))
     ):
         return False
+    # what both storage backends can index: an unsigned 32-bit timestamp, a NIP-01 kind
+    if not (0 <= event.created_at < 2**32 and 0 <= event.kind <= 65535):
+        return False
     for tag in event.tags:
         if not (isinstance(tag, (list, tuple)) and len(tag) > 0):
             return False
